@@ -165,8 +165,8 @@ def finite_states(chain, L, rng):
 
 
 def infinite_state(chain, L, rng, layers=2, chi_max=6):
-    """Entangled infinite MPS in canonical form: a product state evolved by seeded random charge-conserving two-site
-    unitaries ``exp(i h)`` (h a random hermitian combination of the chain's own two-site couplings)."""
+    """Entangled infinite MPS (unit cell L >= 2) in canonical form: a product state evolved by seeded random
+    charge-conserving two-site unitaries ``exp(i h)`` (h a hermitian combination of the chain's two-site couplings)."""
     import tenpy.linalg.np_conserved as npc
     from tenpy.networks.mps import MPS
     site = site_of(chain)
@@ -178,11 +178,10 @@ def infinite_state(chain, L, rng, layers=2, chi_max=6):
     h = h.combine_legs([['p0', 'p1'], ['p0*', 'p1*']], qconj=[+1, -1])
     with warnings.catch_warnings():
         warnings.simplefilter('ignore')
-        for layer in range(layers):
-            for i in range(L if L > 1 else 1):
-                u = npc.expm(1.j * rng.uniform(0.3, 0.9) * h).split_legs()
-                th = npc.tensordot(u, psi.get_theta(i, 2), axes=[['p0*', 'p1*'], ['p0', 'p1']])
-                th = th.combine_legs([['vL', 'p0'], ['p1', 'vR']], new_axes=[0, 1], qconj=[+1, -1])
-                psi.set_svd_theta(i, th, {'chi_max': chi_max, 'svd_min': 1e-8})
+        for _layer, i in itertools.product(range(layers), range(L)):
+            u = npc.expm(1.j * rng.uniform(0.3, 0.9) * h).split_legs()
+            th = npc.tensordot(u, psi.get_theta(i, 2), axes=[['p0*', 'p1*'], ['p0', 'p1']])
+            th = th.combine_legs([['vL', 'p0'], ['p1', 'vR']], new_axes=[0, 1], qconj=[+1, -1])
+            psi.set_svd_theta(i, th, {'chi_max': chi_max, 'svd_min': 1e-8})
         psi.canonical_form()
     return psi
